@@ -86,7 +86,11 @@ def _judge_chain(ctx: RuleContext, rid: str, tc: TreeClass, fn: FuncInfo, expect
         if isinstance(first, ast.Call) and dotted(first.func) in (f'self._token_store.{want}', f'self.token_store.{want}'):
             rest = expr.values[1:]
             expr = rest[0] if len(rest) == 1 else ast.BoolOp(op=ast.Or(), values=rest)
-    chain = parse_edge_chain(expr)
+    def resolver(name: str) -> Optional[ast.AST]:
+        sym_ = tc.cls.lookup(name)
+        g = sym_.fget if isinstance(sym_, CustomProp) else sym_ if isinstance(sym_, FuncInfo) else None
+        return single_return_expr(g) if g is not None and g is not fn else None
+    chain = parse_edge_chain(expr, resolver)
     if chain is None:
         raise AnalysisError(f'{site}: unrecognised edge expression {norm(expr)!r}')
     got = truncate(chain, tc)
